@@ -1,6 +1,7 @@
-"""The fixed list of syntactic rewrites (R1..R15 of DESIGN.md §3.2) applied to freshly extracted
+"""The fixed list of syntactic rewrites (R1..R19 of DESIGN.md §3.2) applied to freshly extracted
 function text before it is handed to Verus.  Each rewrite works on token lists and returns the
 number of sites it touched so the evidence can log it."""
+import re
 from .items import match_close
 
 BNUM_TYPES = ('BUint', 'BUintD32', 'BUintD16', 'BUintD8', 'BInt', 'BIntD32', 'BIntD16', 'BIntD8')
@@ -369,3 +370,237 @@ def r15_rng(sig, body, impl, assoc_types, log):
             k += 1
         return out
     return rw(sig), rw(body), new_impl
+
+
+_INT_ELEM_TYPES = ('u8', 'u16', 'u32', 'u64', 'u128', 'usize', 'i8', 'i16', 'i32', 'i64', 'i128', 'isize')
+
+
+def array_fields_of_struct(struct_toks):
+    """`pub struct S < const N : usize > { pub ( crate ) digits : [ u64 ; N ] , }` -> {'digits': ('u64', 'N')}
+    for every field whose type is `[ PRIM_INT ; LEN ]` with LEN the struct's own const generic parameter
+    (declared `const LEN : usize`).  Used by R18 to know, from the expansion itself and not from a guess,
+    that `self . digits` is an array of a `Copy` integer type of length `LEN`."""
+    t = list(struct_toks)
+    if 'struct' not in t or '{' not in t:
+        return {}
+    head = t[:t.index('{')]
+    lens = {head[i + 1] for i in range(len(head) - 3) if head[i] == 'const' and head[i + 2] == ':' and head[i + 3] == 'usize'}
+    b = t.index('{')
+    e = match_close(t, b)
+    out = {}
+    for (a, z) in _split_params(t, b + 1, e):
+        f = t[a:z]
+        if ':' not in f:
+            continue
+        c = f.index(':')
+        name, ty = f[c - 1], f[c + 1:]
+        if len(ty) == 5 and ty[0] == '[' and ty[1] in _INT_ELEM_TYPES and ty[2] == ';' and ty[3] in lens and ty[4] == ']':
+            out[name] = (ty[1], ty[3])
+    return out
+
+
+def _loop_head_end(toks, i):
+    """index of the `{` that opens the body of the loop whose head expression starts at toks[i]
+    (first `{` outside parentheses / brackets: a loop head cannot contain a bare struct literal or block)"""
+    d = 0
+    n = len(toks)
+    while i < n:
+        t = toks[i]
+        if t in ('(', '['):
+            d += 1
+        elif t in (')', ']'):
+            d -= 1
+        elif t == '{' and d == 0:
+            return i
+        elif t == ';' and d == 0:
+            break
+        i += 1
+    raise Unsupported('loop head without body')
+
+
+def r18_array_for(sig, body, array_fields, log):
+    """R18 (entry option `r18`): by-value `for` loops over an array field of `self`, desugared to the index
+    loop that Rust's own definition of the loop denotes.  Verus has no model of `core::array::IntoIter`
+    ("`core::array::iter::IntoIter` is not supported") nor of the `Take` adapter.
+
+      (a)  for PAT in self . F { B }
+             ->  { let mut it__k : usize = 0 ;
+                   while it__k < LEN { let PAT = self . F [ it__k ] ; it__k += 1 ; B } }
+      (b)  for PAT in IntoIterator :: into_iter ( self . F ) . take ( K ) { B }
+             ->  { let take__k : usize = K ; let mut it__k : usize = 0 ;
+                   while it__k < take__k && it__k < LEN { let PAT = self . F [ it__k ] ; it__k += 1 ; B } }
+
+    where `F : [T; LEN]` is a field of the impl's Self type as declared in the expansion (`array_fields`, from
+    `array_fields_of_struct`), T a primitive integer type and LEN the const generic of the impl.  `k` numbers
+    the rewritten loops of the function.  `for` loops over an integer range (`a .. b`, `a ..= b`) are left
+    alone (Verus supports them).  Anything else raises `Unsupported` (=> exit 2, never an alarm).
+
+    Why this preserves meaning.  Rust defines `for PAT in E { B }` as
+        match IntoIterator::into_iter(E) { mut iter => loop { match iter.next() { None => break, Some(PAT) => B } } }
+    and for E : [T; LEN] `into_iter` MOVES the array into `array::IntoIter`, whose `next()` yields the elements
+    with index 0, 1, .., LEN-1 by value, then None; `.take(K)` (K: usize, evaluated once when the adapter is
+    built, after the array has been copied) stops after min(K, LEN) elements.
+      * T is a primitive integer, so the array is `Copy`: moving it leaves `self.F` usable and has no drop effects;
+        element k of the iterator's private copy equals `self.F[k]` for the whole loop because the receiver is the
+        immutable binding `self` / `& self` (checked: `mut self` -- R4's `self__` --, `& mut self` and any
+        re-binding of `self` are refused), so nothing in B can write to it.
+      * `it__k` is the number of `next()` calls that returned `Some`.  It is incremented right after the element is
+        fetched and BEFORE B, exactly like the iterator advances inside `next()`: a `continue` in B therefore goes
+        to the next element, `break`/`return`/`?` leave the loop, as in the original.  `it__k < LEN <= usize::MAX`
+        at the increment, so it cannot overflow; the index is in bounds, so no panic is added or removed.
+      * K is bound once to `take__k: usize` before the loop (the type annotation is `take`'s parameter type).
+      * The fresh names end in `__` (reserved for the generator); the rewrite refuses a function that already
+        uses them or that re-binds LEN, and refuses labelled `for` loops (a label cannot move onto the block).
+      * PAT must be `IDENT` or `mut IDENT` (an irrefutable binding), which is all `let PAT = ..;` needs.
+    The outer braces keep `it__k`/`take__k` out of the enclosing scope; the block has type `()` like the loop."""
+    toks = list(body)
+    if 'for' not in toks:
+        return toks
+    # receiver must be the immutable `self` or `& self`
+    ps = sig.index('(', sig.index('fn'))
+    recv_ok = sig[ps + 1] == 'self' or (sig[ps + 1] == '&' and sig[ps + 2] == 'self')
+    out = []
+    i = 0
+    n = len(toks)
+    k = 0
+    while i < n:
+        t = toks[i]
+        if t != 'for' or (i + 1 < n and toks[i + 1] == '<'):
+            out.append(t)
+            i += 1
+            continue
+        # pattern
+        try:
+            j = toks.index('in', i + 1)
+        except ValueError:
+            raise Unsupported('R18: `for` without `in`')
+        pat = toks[i + 1:j]
+        ob = _loop_head_end(toks, j + 1)
+        cb = match_close(toks, ob)
+        expr = toks[j + 1:ob]
+        d = 0
+        is_range = False
+        for x in expr:
+            if x in ('(', '['):
+                d += 1
+            elif x in (')', ']'):
+                d -= 1
+            elif x in ('..', '..=') and d == 0:
+                is_range = True
+        if is_range:
+            out.append(t)
+            i += 1
+            continue
+        if i >= 2 and toks[i - 1] == ':' and toks[i - 2].startswith("'"):
+            raise Unsupported('R18: labelled `for` loop')
+        if not (len(pat) == 1 or (len(pat) == 2 and pat[0] == 'mut')) or not (pat[-1][0].isalpha() or pat[-1][0] == '_') or pat[-1] in ('_', 'ref', 'mut'):
+            raise Unsupported('R18: loop pattern is not `IDENT` / `mut IDENT`: ' + ' '.join(pat))
+        take = None
+        if len(expr) == 3 and expr[0] == 'self' and expr[1] == '.':
+            field = expr[2]
+        elif expr[:7] == ['IntoIterator', '::', 'into_iter', '(', 'self', '.'] + expr[6:7] and len(expr) > 12 and expr[7:11] == [')', '.', 'take', '('] and match_close(expr, 10) == len(expr) - 1:
+            field = expr[6]
+            take = expr[11:-1]
+            d = 0
+            for x in take:
+                if x in ('(', '['):
+                    d += 1
+                elif x in (')', ']'):
+                    d -= 1
+                elif x in ('{', '}', ';', '|', '=>') or (x == ',' and d == 0):
+                    raise Unsupported('R18: argument of take() is not a plain expression: ' + ' '.join(take))
+        else:
+            raise Unsupported('R18: unsupported `for` iterable: ' + ' '.join(expr))
+        if not recv_ok:
+            raise Unsupported('R18: receiver is not the immutable `self` / `& self`')
+        if field not in array_fields:
+            raise Unsupported(f'R18: `self.{field}` is not an array field `[int; LEN]` of the Self type in the expansion')
+        _elem, ln = array_fields[field]
+        itn, tkn = f'it__{k}', f'take__{k}'
+        if itn in toks or tkn in toks or itn in sig or tkn in sig:
+            raise Unsupported('R18: reserved name already in use')
+        for q in range(len(toks) - 1):
+            if toks[q] == ln and toks[q + 1] == ':' and (q == 0 or toks[q - 1] != '::'):
+                raise Unsupported(f'R18: `{ln}` is re-bound in the body')
+            if toks[q] in ('let', 'mut', '|') and toks[q + 1] in (ln, 'self'):
+                raise Unsupported(f'R18: `{toks[q + 1]}` is re-bound in the body')
+        for q in range(len(sig) - 1):
+            if sig[q] == ln and sig[q + 1] == ':':
+                raise Unsupported(f'R18: `{ln}` is re-declared by the fn signature')
+        out.append('{')
+        if take is not None:
+            out += ['let', tkn, ':', 'usize', '='] + take + [';']
+        out += ['let', 'mut', itn, ':', 'usize', '=', '0', ';', 'while', itn, '<']
+        if take is not None:
+            out += [tkn, '&&', itn, '<']
+        out += [ln, '{', 'let'] + pat + ['=', 'self', '.', field, '[', itn, ']', ';', itn, '+=', '1', ';']
+        # the loop body is processed recursively (nested array loops get their own k)
+        # by continuing the scan inside it; the closing brace of the loop gets one extra `}` for the block
+        toks[cb] = '}__R18'
+        k += 1
+        log['R18'] = log.get('R18', 0) + 1
+        i = ob + 1
+        continue
+    res = []
+    for t in out:
+        if t == '}__R18':
+            res += ['}', '}']
+        else:
+            res.append(t)
+    return res
+
+
+def r19_while_let_ref_lit(body, log):
+    """R19 (entry option `r19`): a reference-to-literal sub-pattern in a `while let` head, which Verus rejects
+    ("The verifier does not yet support the following Rust feature: ref patterns"):
+
+        while let Some ( & LIT ) = E { B }   ->   while let Some ( p__k ) = E { if * p__k != LIT { break ; } B }
+
+    LIT is an integer literal, E any head expression (here `out . last ( )` : Option<&u8>).
+    Why this preserves meaning.  `while let PAT = E { B }` is `loop { match E { PAT => B, _ => break } }`.  The
+    pattern `Some(&LIT)` matches a value `Some(p)` exactly when the referent `*p` equals LIT (a `&P` pattern
+    dereferences, a literal pattern compares with `==` on a primitive integer) and binds nothing.  So the loop
+    leaves (`break`) when E is `None` or when it is `Some(p)` with `*p != LIT`, and runs B otherwise -- which is what
+    the rewritten loop does.  `p__k` is fresh (refused if the name occurs anywhere in the function) and dead
+    before B starts, so the shared borrow of E's referent has ended where the original pattern had none and B
+    borrow-checks as before; E is evaluated once per iteration in both forms.  Refused (`Unsupported`): a
+    non-integer literal, any other pattern shape, a labelled loop, a `continue` or a labelled `break` in B (a
+    conservative restriction: the inserted `break` must be the innermost loop's own)."""
+    toks = list(body)
+    out = []
+    i = 0
+    n = len(toks)
+    k = 0
+    while i < n:
+        if not (toks[i] == 'while' and i + 1 < n and toks[i + 1] == 'let'):
+            out.append(toks[i])
+            i += 1
+            continue
+        ob = _loop_head_end(toks, i + 2)
+        try:
+            eq = toks.index('=', i + 2, ob)
+        except ValueError:
+            raise Unsupported('R19: `while let` without `=`')
+        pat = toks[i + 2:eq]
+        if '&' not in pat:
+            out.append(toks[i])
+            i += 1
+            continue
+        lit = pat[3] if len(pat) == 5 else ''
+        if not (len(pat) == 5 and pat[:3] == ['Some', '(', '&'] and pat[4] == ')' and re.fullmatch(r'\d[\d_]*(?:[ui](?:8|16|32|64|128|size))?|0x[0-9a-fA-F_]+(?:[ui](?:8|16|32|64|128|size))?', lit)):
+            raise Unsupported('R19: unsupported `while let` pattern: ' + ' '.join(pat))
+        if i >= 2 and toks[i - 1] == ':' and toks[i - 2].startswith("'"):
+            raise Unsupported('R19: labelled `while let` loop')
+        cb = match_close(toks, ob)
+        inner = toks[ob + 1:cb]
+        for q, x in enumerate(inner):
+            if x == 'continue' or (x == 'break' and q + 1 < len(inner) and inner[q + 1].startswith("'")):
+                raise Unsupported('R19: `continue` / labelled `break` in the loop body')
+        pn = f'p__{k}'
+        if pn in toks:
+            raise Unsupported('R19: reserved name already in use')
+        out += ['while', 'let', 'Some', '(', pn, ')'] + toks[eq:ob] + ['{', 'if', '*', pn, '!=', lit, '{', 'break', ';', '}']
+        k += 1
+        log['R19'] = log.get('R19', 0) + 1
+        i = ob + 1
+    return out
